@@ -136,6 +136,23 @@ Theorem tsd_value_step : forall h, dincreasing MIN_DT h ->
 Proof. exact TsdValueFacts.tsd_value_step_l. Qed.
 Print Assumptions tsd_value_step.
 
+(* The delta of a cycle is EXACTLY that cycle's, also when elements are written through their own output views
+   (DWrite: no dictionary-level operation, the dictionary rolls its window from record_child_modified alone):
+   a key is reported as modified iff it is live and its element carries this cycle's time stamp - never a mark
+   left over from the previous delta window. *)
+Theorem tsd_modified_are_written : forall h, dincreasing MIN_DT h ->
+  forall a t ops b, In (a, t, ops, b) (tsd_trace tsd_empty h) ->
+  forall k, In k (tsd_modified_keys t b) ->
+  exists i, dst b i = mkSlot SLive k /\ c_lmt (child_at b i) = t /\ tsd_get b k = Some (c_val (child_at b i)).
+Proof. exact TsdValueFacts.tsd_modified_written_l. Qed.
+Print Assumptions tsd_modified_are_written.
+
+Theorem tsd_written_are_modified : forall h, dincreasing MIN_DT h ->
+  forall a t ops b, In (a, t, ops, b) (tsd_trace tsd_empty h) ->
+  forall i k, dst b i = mkSlot SLive k -> c_lmt (child_at b i) = t -> In k (tsd_modified_keys t b).
+Proof. exact TsdValueFacts.tsd_written_modified_l. Qed.
+Print Assumptions tsd_written_are_modified.
+
 (* HISTORY (known finding KF-tsd-set-erase-set-C05, repaired): under the insert rule hgraph had before the repair
    (CollOld.v) the statement was false - a key written, erased and written again within one cycle carried a new
    value without being reported as modified. *)
@@ -227,6 +244,14 @@ Example ex_tsd_repaired :
   let b := tsd_cycle 1 [DSet 2 9; DErase 2; DSet 2 3] tsd_empty in
   tsd_modified_keys 1 b = [2] /\ tsd_added 1 b = [2] /\ tsd_get b 2 = Some 3.
 Proof. exact TsdFacts.tsd_repaired_witness. Qed.
+
+Example ex_tsd_child_only_cycle :
+  let h := [ (1, [DSet 1 10; DSet 2 20; DSet 3 30]); (2, [DSet 1 11; DSet 2 21; DErase 3]); (4, [DWrite 2 22]); (5, []) ] in
+  dincreasing MIN_DT h /\
+  map (fun x => (sortz (tsd_modified_keys (snd (fst (fst x))) (snd x)), sortz (tsd_removed (snd (fst (fst x))) (snd x)), tsd_get (snd x) 2))
+      (tsd_trace tsd_empty h)
+  = [ ([1; 2; 3], [], Some 20); ([1; 2], [3], Some 21); ([2], [], Some 22); ([], [], Some 22) ].
+Proof. vm_compute. split; [repeat split; reflexivity|reflexivity]. Qed.
 
 Example ex_window :
   let h := [ (1, [WPush 10]); (2, [WPush 11]); (3, []); (4, [WPush 12]); (5, [WPush 13; WPush 14]); (7, [WClear; WPush 15]) ] in
